@@ -312,6 +312,19 @@ CLAIMED["C09"] = (
     COMMON_NOTE + "fs.WalkMode is an assumed iteration contract; fileHash (io.Copy into the hash) is opaque.",
     "contract-based deductive verification (function literal under contract, ghost set of hashed strings, known-finding regions + SMT)", "6/C09")
 
+CLAIMED["C19"] = (
+    "Memory safety of the lexer for ALL inputs, proved against a representation invariant (lexOK: the buffer ends in two NUL bytes preceded "
+    "by a newline, the position is at or before the first terminator, the indent stack is non-empty with 0 at the bottom): newLexer "
+    "establishes it for any byte sequence read; stripSpaces, AssignFollows, consumeInteger, consumeString (escape and triple-quote look-ahead "
+    "included), consumePossiblyTripleQuotedString, consumeIdent (with an assumed contract of utf8.DecodeRune), nextToken (recursion by "
+    "contract) and Next preserve it up to and including the EOF token, with every index/slice/nil obligation discharged — so every token "
+    "stream is produced without an index-out-of-range, and the only other exits are lex.fail (a positioned error). Plus a safety contract "
+    "for concatStrings (adjacent string / f-string literals), which exposed the crash repaired by 75a8de7. Kernel-only: termination is not "
+    "proved (partial correctness); the recursive-descent parser itself (grammar_parse.go) is not under contract, in particular that it never "
+    "advances the lexer past EOF is assumed; errors.go is not under contract.",
+    COMMON_NOTE + "io.ReadAll is opaque (any byte sequence); unicode.IsLetter/IsDigit are pure; bytes are mathematical integers 0..255.",
+    "contract-based deductive verification (representation invariant, loop invariants, no-panic obligations + SMT)", "6/C19")
+
 NOT_APPLICABLE = {
     "C05": "liveness / whole-run exit status under all schedules: no per-call contract expresses it (safety fragment is under C04)",
     "C30": "OS process groups, signals and wall-clock bounds; goroutines and select are outside the sequential contract model",
